@@ -1,12 +1,13 @@
 import ExprModel.Proofs.SpecOps
 import ExprModel.Proofs.SpecCtx
 import ExprModel.Proofs.SpecSlice
+import ExprModel.Props.C01
 /-
 C18 — Collection builtins satisfy their defining identities.
 
-All theorems are about the reference evaluator `Spec.eval` (tied to the real compiler + VM by the
-C01 correspondence and by the C18 harness, which runs both sides of every identity on the real code
-and through the `speceval` stage).  Closure bodies, collections, environments, contexts and start
+The theorems are first proved about the reference evaluator `Spec.eval`, then (last section, "transferred
+to the VM") restated about runs of the compiled programs through C01's refinement theorem.  The C18
+harness runs both sides of every identity on the real code and through the `speceval` stage.  Closure bodies, collections, environments, contexts and start
 states are arbitrary.  Evaluation has effects (call log, allocation counters) and can fail, so every
 identity says which observables it preserves:
 
@@ -596,5 +597,295 @@ example : lengthV (.arr .iface [.int .int 5, .int .int 6]) = .ok 2 ∧
 /-- a mapper that fails at the second element: `map([5, 6], {1 / (# - 6)})` fails with `divzero` -/
 example : (eval c0 [] (.builtin {} "map" [xs0, .closure {} (.binary {} "/" (.int {} 1)
       (.binary {} "-" (.pointer {}) (.int {} 6)))]) {}).1 = .error .divzero := rfl
+
+open ExprModel.Refine (specOf obs RunAgrees progOf FitsU16 EnvOK Good SmallColl floatsOK)
+open ExprModel.C01 (m0)
+
+/-! ## transferred to the VM
+
+Every identity above, restated about *runs of the compiled programs*: `compileProgram` (= compiler.Compile,
+byte for byte) followed by the byte-level `run` (= (*VM).Run).  The bridge is C01's refinement theorem
+`run_conforms_checked`; `Conf` bundles its side conditions for one (tree, compiled program) pair. -/
+
+/-- C01's side conditions for one compiled tree: it compiles to `cp`; its float constants are literals
+    no two of which are `==` with different bits (`floatsOK`, decidable); every operand fits 16 bits
+    (`FitsU16`, decidable); a map-environment compilation runs on a map; the tree is well-formed and its
+    loop collections have fewer than 2^63 elements -/
+structure Conf (c : Cfg) (cfg : CompCfg) (n : Node) (cp : Compiled) : Prop where
+  compiles : compileProgram cfg n = .ok cp
+  floats : floatsOK n = true
+  fits : FitsU16 cp.code
+  env : EnvOK c cfg
+  good : Good (SmallColl c) n
+
+/-- what a VM run is observed on: value or error class, and (memory total, created total, call log) -/
+def vmOut (c : Cfg) (cp : Compiled) (fuel : Nat) : R Val × SState :=
+  ((run c (progOf cp) fuel).1, obs (run c (progOf cp) fuel).2)
+
+/-- C01, as an equation: for enough fuel the observable outcome of the compiled program's run is `Spec.run` -/
+theorem vm_conforms {c : Cfg} {cfg : CompCfg} {n : Node} {cp : Compiled} (h : Conf c cfg n cp) :
+    ∃ N, ∀ fuel, N ≤ fuel → vmOut c cp fuel = Spec.run (specOf c) cfg.cast n := by
+  obtain ⟨N, hN⟩ := C01.run_conforms_checked cfg n cp c h.compiles h.floats h.fits h.env h.good
+  exact ⟨N, fun fuel hf => Prod.ext (hN fuel hf).1 (hN fuel hf).2.1⟩
+
+/-- the generic transfer: any relation between the two `Spec.run` outcomes holds between the observable
+    outcomes of the two compiled programs' runs, for enough fuel -/
+theorem transfer {c : Cfg} {cfgL cfgR : CompCfg} {nL nR : Node} {cpL cpR : Compiled}
+    (hL : Conf c cfgL nL cpL) (hR : Conf c cfgR nR cpR)
+    (rel : R Val × SState → R Val × SState → Prop)
+    (hspec : rel (Spec.run (specOf c) cfgL.cast nL) (Spec.run (specOf c) cfgR.cast nR)) :
+    ∃ N, ∀ fuel, N ≤ fuel → rel (vmOut c cpL fuel) (vmOut c cpR fuel) := by
+  obtain ⟨N1, h1⟩ := vm_conforms hL
+  obtain ⟨N2, h2⟩ := vm_conforms hR
+  refine ⟨max N1 N2, fun fuel hf => ?_⟩
+  rw [h1 fuel (by omega), h2 fuel (by omega)]
+  exact hspec
+
+theorem specRun_congr (sc : SCfg) (cast : Option Nat) (nL nR : Node) (h : eval sc [] nL = eval sc [] nR) :
+    Spec.run sc cast nL = Spec.run sc cast nR := by
+  unfold Spec.run; rw [h]
+
+theorem specRun_none (sc : SCfg) (n : Node) : Spec.run sc none n = eval sc [] n {} := by
+  unfold Spec.run
+  rcases eval sc [] n {} with ⟨r, s⟩
+  cases r <;> rfl
+
+/-- `all(xs, {p})` and `not any(xs, {not p})`, compiled and run: for enough fuel both runs end with the same
+    value or error class, the same call log and the same allocation totals -/
+theorem all_eq_not_any_not_vm (c : Cfg) (cfgL cfgR : CompCfg) (hcast : cfgL.cast = cfgR.cast)
+    (m m' mu mc mc' mn : Meta) (op op' : String) (hop : isNotOp op) (hop' : isNotOp op') (xs p : Node)
+    (cpL cpR : Compiled)
+    (hL : Conf c cfgL (.builtin m "all" [xs, .closure mc p]) cpL)
+    (hR : Conf c cfgR (.unary mu op (.builtin m' "any" [xs, .closure mc' (.unary mn op' p)])) cpR) :
+    ∃ N, ∀ fuel, N ≤ fuel → vmOut c cpL fuel = vmOut c cpR fuel :=
+  transfer hL hR (· = ·) (by
+    rw [hcast]
+    exact specRun_congr _ _ _ _ (all_eq_not_any_not (specOf c) [] m m' mu mc mc' mn op op' hop hop' xs p))
+
+theorem none_eq_not_any_vm (c : Cfg) (cfgL cfgR : CompCfg) (hcast : cfgL.cast = cfgR.cast)
+    (m m' mu : Meta) (op : String) (hop : isNotOp op) (xs b : Node) (cpL cpR : Compiled)
+    (hL : Conf c cfgL (.builtin m "none" [xs, b]) cpL)
+    (hR : Conf c cfgR (.unary mu op (.builtin m' "any" [xs, b])) cpR) :
+    ∃ N, ∀ fuel, N ≤ fuel → vmOut c cpL fuel = vmOut c cpR fuel :=
+  transfer hL hR (· = ·) (by
+    rw [hcast]; exact specRun_congr _ _ _ _ (none_eq_not_any (specOf c) [] m m' mu op hop xs b))
+
+theorem one_eq_count_one_vm (c : Cfg) (cfgL cfgR : CompCfg) (hcast : cfgL.cast = cfgR.cast)
+    (m m' me m1 : Meta) (xs b : Node) (h1 : intConst m1.kd 1 = .int .int 1) (hk : m'.kd ≠ .string)
+    (cpL cpR : Compiled)
+    (hL : Conf c cfgL (.builtin m "one" [xs, b]) cpL)
+    (hR : Conf c cfgR (.binary me "==" (.builtin m' "count" [xs, b]) (.int m1 1)) cpR) :
+    ∃ N, ∀ fuel, N ≤ fuel → vmOut c cpL fuel = vmOut c cpR fuel :=
+  transfer hL hR (· = ·) (by
+    rw [hcast]; exact specRun_congr _ _ _ _ (one_eq_count_one (specOf c) [] m m' me m1 xs b h1 hk))
+
+/-- `len(filter(xs, {p}))` run on the VM is `count(xs, {p})` run on the VM followed by the allocation
+    charge: same log always, same error, same value below the budget -/
+theorem count_eq_len_filter_vm (c : Cfg) (cfgL cfgR : CompCfg) (hcL : cfgL.cast = none) (hcR : cfgR.cast = none)
+    (m m' ml : Meta) (xs b : Node) (cpL cpR : Compiled)
+    (hseq : ∀ coll s', eval (specOf c) [] xs {} = (.ok coll, s') → SeqVal coll)
+    (hL : Conf c cfgL (.builtin m "count" [xs, b]) cpL)
+    (hR : Conf c cfgR (.builtin ml "len" [.builtin m' "filter" [xs, b]]) cpR) :
+    ∃ N, ∀ fuel, N ≤ fuel → vmOut c cpR fuel = chargeLen c.budget (vmOut c cpL fuel) :=
+  transfer hL hR (fun a b => b = chargeLen c.budget a) (by
+    rw [hcL, hcR, specRun_none, specRun_none]
+    exact count_eq_len_filter (specOf c) [] m m' ml xs b {} hseq)
+
+/-- whenever the run of `len(map(xs, {f}))` succeeds, the run of `len(xs)` succeeds with the same value -/
+theorem len_map_vm (c : Cfg) (cfgL cfgR : CompCfg) (hcL : cfgL.cast = none) (hcR : cfgR.cast = none)
+    (ml ml' m : Meta) (xs f : Node) (cpL cpR : Compiled)
+    (hL : Conf c cfgL (.builtin ml "len" [.builtin m "map" [xs, f]]) cpL)
+    (hR : Conf c cfgR (.builtin ml' "len" [xs]) cpR) :
+    ∃ N, ∀ fuel, N ≤ fuel → ∀ v, (vmOut c cpL fuel).1 = .ok v → (vmOut c cpR fuel).1 = .ok v :=
+  transfer hL hR (fun a b => ∀ v, a.1 = .ok v → b.1 = .ok v) (by
+    rw [hcL, hcR, specRun_none, specRun_none]
+    intro v hv
+    rcases h : eval (specOf c) [] (.builtin ml "len" [.builtin m "map" [xs, f]]) {} with ⟨r, s1⟩
+    rw [h] at hv
+    simp only at hv
+    subst hv
+    obtain ⟨s0, h0⟩ := len_map (specOf c) [] ml ml' m xs f {} s1 v h
+    rw [h0])
+
+/-- the run of `filter(xs, {p})`, when it succeeds, returns exactly the elements whose predicate outcome is
+    `true`, in index order -/
+theorem filter_keeps_in_order_vm (c : Cfg) (cfg : CompCfg) (hc : cfg.cast = none) (m : Meta) (xs b : Node)
+    (cp : Compiled)
+    (hseq : ∀ coll s', eval (specOf c) [] xs {} = (.ok coll, s') → SeqVal coll)
+    (h : Conf c cfg (.builtin m "filter" [xs, b]) cp) :
+    ∃ N, ∀ fuel, N ≤ fuel → ∀ v, (vmOut c cp fuel).1 = .ok v →
+      ∃ coll s0 bs s2, eval (specOf c) [] xs {} = (.ok coll, s0) ∧
+        seqIdx (predAt (specOf c) [] coll b) (elemsOf coll).length 0 s0 = (.ok bs, s2) ∧
+        bs.length = (elemsOf coll).length ∧ v = .arr .iface (keep (elemsOf coll) bs) ∧
+        List.Sublist (keep (elemsOf coll) bs) (elemsOf coll) := by
+  obtain ⟨N, hN⟩ := vm_conforms h
+  refine ⟨N, fun fuel hf v hv => ?_⟩
+  rw [hN fuel hf, hc, specRun_none] at hv
+  rcases he : eval (specOf c) [] (.builtin m "filter" [xs, b]) {} with ⟨r, s1⟩
+  rw [he] at hv
+  simp only at hv
+  subst hv
+  obtain ⟨coll, s0, bs, s2, h1, h2, h3, h4, _, h6, _⟩ :=
+    filter_keeps_in_order (specOf c) [] m xs b {} s1 v hseq he
+  exact ⟨coll, s0, bs, s2, h1, h2, h3, h4, h6⟩
+
+/-- `x in lo..hi` run on the VM is `x >= lo and x <= hi` run on the VM up to the range's allocation -/
+theorem in_range_eq_two_sided_vm (c : Cfg) (cfgL cfgR : CompCfg) (hcL : cfgL.cast = none) (hcR : cfgR.cast = none)
+    (mi mr ma mg ml : Meta) (x lo hi : Node) (k : Kind) (v lo' hi' : Int) (cpL cpR : Compiled)
+    (hx : eval (specOf c) [] x {} = (.ok (.int k v), {}))
+    (hlo : eval (specOf c) [] lo {} = (.ok (.int .int lo'), {}))
+    (hhi : eval (specOf c) [] hi {} = (.ok (.int .int hi'), {}))
+    (hlo64 : inRange .int lo') (hhi64 : inRange .int hi')
+    (hk : k.isInt = true) (hb : BoundsFit k lo' hi')
+    (hL : Conf c cfgL (.binary mi "in" x (.binary mr ".." lo hi)) cpL)
+    (hR : Conf c cfgR (.binary ma "and" (.binary mg ">=" x lo) (.binary ml "<=" x hi)) cpR) :
+    ∃ N, ∀ fuel, N ≤ fuel →
+      vmOut c cpL fuel = chargeRange c.budget (rangeCounted (specOf c) lo' hi') (rangeElems lo' hi').length
+        (vmOut c cpR fuel) ∧
+      (vmOut c cpR fuel).1 = .ok (.bool (decide (lo' ≤ normInt k v ∧ normInt k v ≤ hi'))) :=
+  transfer hL hR (fun a b => a = chargeRange c.budget (rangeCounted (specOf c) lo' hi') (rangeElems lo' hi').length b ∧
+      b.1 = .ok (.bool (decide (lo' ≤ normInt k v ∧ normInt k v ≤ hi')))) (by
+    rw [hcL, hcR, specRun_none, specRun_none]
+    refine ⟨in_range_eq_two_sided (specOf c) [] mi mr ma mg ml x lo hi {} k v lo' hi' hx hlo hhi hlo64 hhi64 hk hb, ?_⟩
+    rw [two_sided_value (specOf c) [] ma mg ml x lo hi {} k v lo' hi' hx hlo hhi hk hb])
+
+/-- `x[:i]` and `x[i:]` compiled and run: the first `i` elements and the rest, which concatenate to the
+    value of `x`; both runs end with the same counters and log -/
+theorem slice_partitions_vm (c : Cfg) (cfgL cfgR : CompCfg) (hcL : cfgL.cast = none) (hcR : cfgR.cast = none)
+    (m m' : Meta) (x i : Node) (s0 s1 : SState) (t : ElemT) (xs : List Val) (iv : Int) (cpL cpR : Compiled)
+    (hx : eval (specOf c) [] x {} = (.ok (.arr t xs), s0)) (hi : eval (specOf c) [] i s0 = (.ok (.int .int iv), s1))
+    (h0 : 0 ≤ iv) (hr : inRange .int iv) (hlen : inRange .int (xs.length : Nat))
+    (hL : Conf c cfgL (.slice m x none (some i)) cpL) (hR : Conf c cfgR (.slice m' x (some i) none) cpR) :
+    ∃ l r, l ++ r = xs ∧ ∃ N, ∀ fuel, N ≤ fuel →
+      vmOut c cpL fuel = (.ok (.arr t l), s1) ∧ vmOut c cpR fuel = (.ok (.arr t r), s1) := by
+  obtain ⟨l, r, h1, h2, h3⟩ := slice_partitions_eval (specOf c) [] m m' x i {} s0 s1 t xs iv hx hi h0 hr hlen
+  refine ⟨l, r, h3, ?_⟩
+  exact transfer hL hR (fun a b => a = (.ok (.arr t l), s1) ∧ b = (.ok (.arr t r), s1)) (by
+    rw [hcL, hcR, specRun_none, specRun_none]; exact ⟨h1, h2⟩)
+
+
+/-! ### non-vacuity of the transferred statements: concrete trees over `1..3`, in every world, environment and budget -/
+
+def rng : Node := .binary m0 ".." (.int m0 1) (.int m0 3)
+/-- `# > k` -/
+def gt (k : Int) : Node := .binary m0 ">" (.pointer m0) (.int m0 k)
+
+def compiled (n : Node) : Compiled :=
+  match compileProgram {} n with
+  | .ok cp => cp
+  | .error _ => default
+
+def tAll : Node := .builtin m0 "all" [rng, .closure m0 (gt 0)]
+def tNotAny : Node := .unary m0 "not" (.builtin m0 "any" [rng, .closure m0 (.unary m0 "not" (gt 0))])
+def tNone : Node := .builtin m0 "none" [rng, .closure m0 (gt 2)]
+def tNotAny2 : Node := .unary m0 "not" (.builtin m0 "any" [rng, .closure m0 (gt 2)])
+def tOne : Node := .builtin m0 "one" [rng, .closure m0 (gt 2)]
+def tCountEq1 : Node := .binary m0 "==" (.builtin m0 "count" [rng, .closure m0 (gt 2)]) (.int m0 1)
+def tCount : Node := .builtin m0 "count" [rng, .closure m0 (gt 1)]
+def tLenFilter : Node := .builtin m0 "len" [.builtin m0 "filter" [rng, .closure m0 (gt 1)]]
+def tFilter : Node := .builtin m0 "filter" [rng, .closure m0 (gt 1)]
+def tLenMap : Node := .builtin m0 "len" [.builtin m0 "map" [rng, .closure m0 (.pointer m0)]]
+def tLen : Node := .builtin m0 "len" [rng]
+def tIn : Node := .binary m0 "in" (.int m0 2) rng
+def tTwoSided : Node := .binary m0 "and" (.binary m0 ">=" (.int m0 2) (.int m0 1)) (.binary m0 "<=" (.int m0 2) (.int m0 3))
+
+set_option maxRecDepth 8000 in
+theorem conf_tAll (c : Cfg) : Conf c {} tAll (compiled tAll) :=
+  ⟨by unfold compiled; rfl, by decide, by decide, (fun h => by cases h),
+   ⟨.inr (C01.ex_small c), ⟨trivial, trivial⟩, ⟨trivial, trivial⟩, trivial⟩⟩
+
+set_option maxRecDepth 8000 in
+theorem conf_tNotAny (c : Cfg) : Conf c {} tNotAny (compiled tNotAny) :=
+  ⟨by unfold compiled; rfl, by decide, by decide, (fun h => by cases h),
+   ⟨.inr (C01.ex_small c), ⟨trivial, trivial⟩, ⟨trivial, trivial⟩, trivial⟩⟩
+
+example (c : Cfg) : ∃ N, ∀ fuel, N ≤ fuel → vmOut c (compiled tAll) fuel = vmOut c (compiled tNotAny) fuel :=
+  all_eq_not_any_not_vm c {} {} rfl m0 m0 m0 m0 m0 m0 "not" "not" (.inl rfl) (.inl rfl) rng (gt 0) _ _
+    (conf_tAll c) (conf_tNotAny c)
+
+set_option maxRecDepth 8000 in
+theorem conf_loop (c : Cfg) (name : String) (_hn : name ≠ "len") (body : Node) (hb : Good (SmallColl c) body)
+    (hcomp : compileProgram {} (.builtin m0 name [rng, .closure m0 body]) = .ok (compiled (.builtin m0 name [rng, .closure m0 body])))
+    (hfl : floatsOK (.builtin m0 name [rng, .closure m0 body]) = true)
+    (hfit : FitsU16 (compiled (.builtin m0 name [rng, .closure m0 body])).code) :
+    Conf c {} (.builtin m0 name [rng, .closure m0 body]) (compiled (.builtin m0 name [rng, .closure m0 body])) :=
+  ⟨hcomp, hfl, hfit, (fun h => by cases h), ⟨.inr (C01.ex_small c), ⟨trivial, trivial⟩, hb, trivial⟩⟩
+
+set_option maxRecDepth 8000 in
+example (c : Cfg) : ∃ N, ∀ fuel, N ≤ fuel → vmOut c (compiled tNone) fuel = vmOut c (compiled tNotAny2) fuel :=
+  none_eq_not_any_vm c {} {} rfl m0 m0 m0 "not" (.inl rfl) rng (.closure m0 (gt 2)) _ _
+    (conf_loop c "none" (by decide) (gt 2) ⟨trivial, trivial⟩ (by unfold compiled; rfl) (by decide) (by decide))
+    ⟨by unfold compiled; rfl, by decide, by decide, (fun h => by cases h),
+      ⟨.inr (C01.ex_small c), ⟨trivial, trivial⟩, ⟨trivial, trivial⟩, trivial⟩⟩
+
+set_option maxRecDepth 8000 in
+example (c : Cfg) : ∃ N, ∀ fuel, N ≤ fuel → vmOut c (compiled tOne) fuel = vmOut c (compiled tCountEq1) fuel :=
+  one_eq_count_one_vm c {} {} rfl m0 m0 m0 m0 rng (.closure m0 (gt 2)) rfl (by decide) _ _
+    (conf_loop c "one" (by decide) (gt 2) ⟨trivial, trivial⟩ (by unfold compiled; rfl) (by decide) (by decide))
+    ⟨by unfold compiled; rfl, by decide, by decide, (fun h => by cases h),
+      ⟨⟨.inr (C01.ex_small c), ⟨trivial, trivial⟩, ⟨trivial, trivial⟩, trivial⟩, trivial⟩⟩
+
+/-- the range `1..3` evaluates (when the budget allows) to a sequence -/
+theorem rng_seq (sc : SCfg) (ctx : Ctx) (σ : SState) : ∀ coll s', eval sc ctx rng σ = (.ok coll, s') → SeqVal coll := by
+  intro coll s' h
+  unfold rng at h
+  rw [eval_range] at h
+  have e1 : eval sc ctx (.int m0 1) = pure (.int .int 1) := by rw [eval]; rfl
+  have e3 : eval sc ctx (.int m0 3) = pure (.int .int 3) := by rw [eval]; rfl
+  rw [e1, e3] at h
+  simp only [pure_bind, toIntR_int' 1 (by decide), toIntR_int' 3 (by decide), SM.lift_ok] at h
+  rw [SM.bind_apply] at h
+  simp only [SM.allocBefore] at h
+  generalize (if sc.rangeSizeSigned = true then (3 : Int) - 1 + 1 else if (3 : Int) - 1 + 1 < 0 then 0 else 3 - 1 + 1) = counted at h
+  by_cases hb : σ.memory + counted ≥ sc.budget
+  · simp [hb] at h
+  · simp only [hb, if_false, SM.pure_apply, Prod.mk.injEq, Except.ok.injEq] at h
+    rw [← h.1]
+    exact ⟨rfl, by decide⟩
+
+set_option maxRecDepth 8000 in
+example (c : Cfg) : ∃ N, ∀ fuel, N ≤ fuel →
+    vmOut c (compiled tLenFilter) fuel = chargeLen c.budget (vmOut c (compiled tCount) fuel) :=
+  count_eq_len_filter_vm c {} {} rfl rfl m0 m0 m0 rng (.closure m0 (gt 1)) _ _ (rng_seq _ _ _)
+    (conf_loop c "count" (by decide) (gt 1) ⟨trivial, trivial⟩ (by unfold compiled; rfl) (by decide) (by decide))
+    ⟨by unfold compiled; rfl, by decide, by decide, (fun h => by cases h),
+      ⟨.inl rfl, ⟨.inr (C01.ex_small c), ⟨trivial, trivial⟩, ⟨trivial, trivial⟩, trivial⟩, trivial⟩⟩
+
+set_option maxRecDepth 8000 in
+example (c : Cfg) : ∃ N, ∀ fuel, N ≤ fuel → ∀ v, (vmOut c (compiled tLenMap) fuel).1 = .ok v →
+    (vmOut c (compiled tLen) fuel).1 = .ok v :=
+  len_map_vm c {} {} rfl rfl m0 m0 m0 rng (.closure m0 (.pointer m0)) _ _
+    ⟨by unfold compiled; rfl, by decide, by decide, (fun h => by cases h),
+      ⟨.inl rfl, ⟨.inr (C01.ex_small c), ⟨trivial, trivial⟩, trivial, trivial⟩, trivial⟩⟩
+    ⟨by unfold compiled; rfl, by decide, by decide, (fun h => by cases h), ⟨.inl rfl, ⟨trivial, trivial⟩, trivial⟩⟩
+
+set_option maxRecDepth 8000 in
+example (c : Cfg) : Conf c {} tFilter (compiled tFilter) :=
+  conf_loop c "filter" (by decide) (gt 1) ⟨trivial, trivial⟩ (by unfold compiled; rfl) (by decide) (by decide)
+
+set_option maxRecDepth 8000 in
+example (c : Cfg) : ∃ N, ∀ fuel, N ≤ fuel →
+    vmOut c (compiled tIn) fuel = chargeRange c.budget (rangeCounted (specOf c) 1 3) (rangeElems 1 3).length
+      (vmOut c (compiled tTwoSided) fuel) ∧
+    (vmOut c (compiled tTwoSided) fuel).1 = .ok (.bool (decide ((1 : Int) ≤ normInt .int 2 ∧ normInt .int 2 ≤ 3))) :=
+  in_range_eq_two_sided_vm c {} {} rfl rfl m0 m0 m0 m0 m0 (.int m0 2) (.int m0 1) (.int m0 3) .int 2 1 3 _ _
+    rfl rfl rfl (by decide) (by decide) rfl (by intro h; exact absurd h (by decide))
+    ⟨by unfold compiled; rfl, by decide, by decide, (fun h => by cases h), ⟨trivial, trivial, trivial⟩⟩
+    ⟨by unfold compiled; rfl, by decide, by decide, (fun h => by cases h), ⟨⟨trivial, trivial⟩, trivial, trivial⟩⟩
+
+/-- `[5, 6, 7]` as a constant, sliced at 1 -/
+def arr3 : Node := .const m0 (.arr (.num .int) [.int .int 5, .int .int 6, .int .int 7])
+def tPrefix : Node := .slice m0 arr3 none (some (.int m0 1))
+def tSuffix : Node := .slice m0 arr3 (some (.int m0 1)) none
+
+set_option maxRecDepth 8000 in
+example (c : Cfg) : ∃ l r, l ++ r = [Val.int .int 5, .int .int 6, .int .int 7] ∧ ∃ N, ∀ fuel, N ≤ fuel →
+    vmOut c (compiled tPrefix) fuel = (.ok (.arr (.num .int) l), {}) ∧
+    vmOut c (compiled tSuffix) fuel = (.ok (.arr (.num .int) r), {}) :=
+  slice_partitions_vm c {} {} rfl rfl m0 m0 arr3 (.int m0 1) {} {} (.num .int) _ 1 _ _ rfl rfl (by decide) (by decide)
+    (by decide)
+    ⟨by unfold compiled; rfl, by decide, by decide, (fun h => by cases h), ⟨trivial, trivial, trivial⟩⟩
+    ⟨by unfold compiled; rfl, by decide, by decide, (fun h => by cases h), ⟨trivial, trivial, trivial⟩⟩
+
 
 end ExprModel.C18
